@@ -122,3 +122,114 @@ def std_tie(run: Run, n: int, only=None):
         run.broken("std-tie", "coqc failed on the std cases", kind="broken-correspondence")
     run.extra["std_cases"] = len(coq)
     return bad
+
+
+# ----------------------------------------------------------------------------- the update rules END in compute_std_from_variance
+
+NOISE_STD_HDR = ("From Coq Require Import List NArith ZArith QArith Bool.\nFrom Leaspy Require Import Base.Atoms Masked.Weighted Masked.Source "
+                 "Masked.NoiseStd.\nImport ListNotations.\nLocal Close Scope Q_scope.\n")
+
+
+def noise_std_on_code(values, mask, model, diagonal):
+    """The real wiring of with_noise_std_as_model_parameter(dim) as in c06_pipeline.noise_on_code, but what is observed is the OUTCOME
+    of the update rule (the adopted noise_std or the refusal) and the (variance, tol) handed to compute_std_from_variance.
+    -> ("S", std float64 list, tol) | ("R", tol) | ("X", text)"""
+    import types
+    import leaspy.models.obs_models._gaussian as gm
+    from leaspy.exceptions import LeaspyConvergenceError
+    om = gm.FullGaussianObservationModel.with_noise_std_as_model_parameter(2 if diagonal else 1)
+    ds = types.SimpleNamespace(values=values, mask=mask)
+    seen = []
+    orig = gm.compute_std_from_variance
+
+    def recorder(variance, *a, **k):
+        seen.append((variance.detach().clone(), a, dict(k)))
+        return orig(variance, *a, **k)
+    gm.compute_std_from_variance = recorder
+    try:
+        st = {"y": om.getter(ds), "model": model}
+        ns = om.extra_vars["noise_std"]
+        for k, v in om.extra_vars.items():
+            if k != "noise_std":
+                st[k] = v.compute(st)
+        for k, v in ns.suff_stats.dedicated_variables.items():
+            st[k] = v.compute(st)
+        try:
+            out = ("S", ns.update_rule(state=st, **ns.suff_stats(st)))
+        except LeaspyConvergenceError:
+            out = ("R",)
+    except Exception as e:  # noqa: BLE001
+        return ("X", f"{type(e).__name__}: {e}"[:200])
+    finally:
+        gm.compute_std_from_variance = orig
+    if len(seen) != 1:
+        return ("X", f"compute_std_from_variance called {len(seen)} times")
+    var, a, k = seen[0]
+    tol = k.get("tol", a[1] if len(a) > 1 else 1e-5)
+    if out[0] == "S":
+        r = out[1]
+        if list(r.shape) != list(var.shape):
+            return ("X", f"the rule returns shape {list(r.shape)} for a variance of shape {list(var.shape)}")
+        return ("S", [float(x) for x in r.double().reshape(-1).tolist()], float(tol))
+    return ("R", float(tol))
+
+
+def noise_std_tie(run: Run, n: int, only=None):
+    """T2 for the composition rule = compute_std_from_variance(variance of the rule, tol=tol_noise_variance): the adopted noise_std /
+    the refusal of the real rule against Masked/NoiseStd.v inside Coq.  Inputs as in the noise-rule tie (float64 half-integers, garbage
+    incl. NaN / inf under the mask and in the model where y is missing), plus cohorts fitted exactly (variance 0 -> refusal)."""
+    from harness.common import use_impl
+    use_impl()
+    import torch
+    from harness.props.c06_api import atom, jsonable, lst, ns, rshape
+    from harness.props import c06_pipeline as P
+    obs_vals = [k / 2 for k in range(-6, 7)]
+    garbage = [0.0, 7.5, -2.0, 1e30, float("nan"), float("inf"), float("-inf")]
+    todo = []
+    if only is not None:
+        for inp in only:
+            v, m, mod = P.noise_case_tensors(dict(inp, scenario="noise-tie"))
+            todo.append((inp, v, m, mod, inp["rule"] == "diagonal"))
+    else:
+        for c in range(n):
+            r = run.rng("noise-std-tie", c)
+            ni, nvis, nf = r.randint(1, 3), r.randint(1, 3), r.randint(1, 3)
+            p = r.choice([0.15, 0.4, 0.7])
+            mask = torch.tensor([[[0.0 if r.random() < p else 1.0 for _ in range(nf)] for _ in range(nvis)] for _ in range(ni)], dtype=torch.float64)
+            if not bool(mask.any()):
+                mask[r.randrange(ni), r.randrange(nvis), r.randrange(nf)] = 1.0
+            exact = r.random() < 0.25    # the model reproduces y on observed entries: variance 0, the rule must refuse
+            values = torch.tensor([[[r.choice(obs_vals) if mask[i, j, k] else r.choice(garbage) for k in range(nf)]
+                                    for j in range(nvis)] for i in range(ni)], dtype=torch.float64)
+            model = torch.tensor([[[(values[i, j, k].item() if exact else r.choice(obs_vals)) if mask[i, j, k] else r.choice(garbage)
+                                    for k in range(nf)] for j in range(nvis)] for i in range(ni)], dtype=torch.float64)
+            diagonal = r.random() < 0.5
+            inp = dict(scenario="noise-std-tie", rule="diagonal" if diagonal else "scalar", values=jsonable(values.tolist()),
+                       mask=[[[int(x) for x in v] for v in i] for i in mask.tolist()], model=jsonable(model.tolist()))
+            todo.append((inp, values, mask, model, diagonal))
+    cases, meta = [], []
+    for inp, values, mask, model, diagonal in todo:
+        res = noise_std_on_code(values, mask, model, diagonal)
+        w = mask.bool()
+        run.case(("noise-std-tie", json.dumps(inp, sort_keys=True)), nontrivial=bool((~w).any()))
+        run.count("noise-std-outcome", {"S": "adopted", "R": "refused", "X": "other-exception"}[res[0]])
+        if res[0] == "X":
+            run.fail("noise-rule:raises-before-or-after-the-guard", f"noise update rule: {res[1]}", inp)
+            continue
+        tol = res[-1]
+        obs = "ObsRefused" if res[0] == "R" else f"(ObsSqrt {lst(atom(x) for x in res[1])})"
+        cases.append(f"({'true' if diagonal else 'false'}, {rshape(values.shape)}, {lst(atom(x) for x in values.reshape(-1).tolist())}, "
+                     f"{ns(mask.reshape(-1).tolist())}, {lst(atom(x) for x in model.reshape(-1).tolist())}, {atom(tol)}, {obs})")
+        meta.append((inp, res))
+    bad = run.vm_bad_indices("noisestd", NOISE_STD_HDR, "bool * list nat * list atom * list N * list atom * atom * std_obs", cases,
+                             "check_noise_std_case")
+    for b in bad or []:
+        inp, res = meta[b]
+        run.fail(f"noise-std-differs-from-model:{inp['rule']}",
+                 "the outcome of the real noise update rule (adopted noise_std / LeaspyConvergenceError) is not compute_std_from_variance of the "
+                 "variance over observed entries (Masked/NoiseStd.v; the theorem C06_noise_std_observed_only is about the model)", inp,
+                 expected="noise_std_scalar / noise_std_diagonal of Masked/NoiseStd.v", observed=str(res)[:300])
+    if bad is None:
+        run.broken("noise-std-tie", "coqc failed on the noise-std cases", kind="broken-correspondence")
+    run.extra["noise_std_cases"] = len(cases)
+    return bad
